@@ -574,8 +574,48 @@ def check_wire(msg, offset, expect=None):
 
 
 # ---------------------------------------------------------------- recheck
+# ------------------------------------------------------------------ compression table after a Renderer rollback
+def _rollback_relevant(sig):
+    return sig.startswith(("renderer/refparse", "renderer/kept-sets-differ"))
+
+
+def rollback_case(case):
+    """The compression table handed to to_wire by a size-limited dns.renderer.Renderer that
+    refused a record set and carried on: every name written afterwards must still decode to
+    itself (c08.judge_renderer parses the output with the independent reference parser and
+    compares the kept record sets)."""
+    from . import c08
+    probs, info = c08.judge_renderer(case)
+    return [("C01/renderer-rollback/" + s.split("/", 1)[1], w) for s, w in probs if _rollback_relevant(s)], info
+
+
+def w_rollback(task, col):
+    _, mi, lo, hi = task
+    for L in range(lo, hi):
+        for tsig in (0, 3):
+            case = {"mode": "renderer-rollback", "msg": mi, "L": L, "tsig": tsig}
+            probs, info = rollback_case(case)
+            col.count("evaluations")
+            col.count("evaluations_renderer_rollback")
+            col.outcome("renderer-rollback:%s" % (probs[0][0] if probs else info.get("outcome", "ok")))
+            for s_, w_ in probs:
+                col.violation(s_, "%s (message %d, max_size %d, tsig variant %d)" % (w_, mi, L, tsig), case)
+
+
+def rollback_tasks():
+    from . import c08
+    out = []
+    for mi in range(len(c08.MESSAGES)):
+        full = c08.base_facts(mi)["full"]
+        for lo in range(512, full + 20, 200):
+            out.append(("rollback", mi, lo, min(lo + 200, full + 20)))
+    return out
+
+
 def recheck(case):
     m = case["mode"]
+    if m == "renderer-rollback":
+        return rollback_case(case)[0]
     if m == "mutable-label":
         return mutable_label_case(case)[0]
     if m == "origin-limit":
@@ -1020,7 +1060,7 @@ def w_origin_limit(task, col):
                     col.violation(s_, w_, case)
 
 
-WORKERS = {"origin_limit": w_origin_limit, "text1": w_text1, "textk": w_textk, "textpool": w_textpool, "parse": w_parse, "parse_short": w_parse_short,
+WORKERS = {"rollback": w_rollback, "origin_limit": w_origin_limit, "text1": w_text1, "textk": w_textk, "textpool": w_textpool, "parse": w_parse, "parse_short": w_parse_short,
            "parse_ddd": w_parse_ddd, "limits": w_limits, "compress": w_compress, "compress3": w_compress3,
            "wire": w_wire, "wire_short": w_wire_short, "graph": w_graph, "wire_long": w_wire_long}
 
@@ -1085,6 +1125,7 @@ def run(ctx):
             tasks.append(("graph", graph_k, first, tuple(graph_bases)))
     tasks.append(("wire_long",))
     tasks.append(("origin_limit",))
+    tasks.extend(rollback_tasks())
     ctx.rule = (
         "exhaustive products, one evaluation = one name / text / byte-string+offset pushed through every listed "
         "library path and compared with mc/refs/name.py.  Distinct non-trivial: text = distinct label tuple with at "
